@@ -265,7 +265,13 @@ class CoordinateComponent(Component):
             # If the view is a tuple or list of arrays, we should actually just
             # convert these straight to world coordinates since the indices
             # of the pixel coordinates are the pixel coordinates themselves.
-            if isinstance(view, (tuple, list)) and isinstance(view[0], np.ndarray):
+            # NOTE: this only applies if there is one array for each dimension
+            # - otherwise (e.g. if arrays are mixed with scalars) the general
+            # case below computes all the values and then applies the view.
+            if (isinstance(view, (tuple, list)) and len(view) == self._data.ndim and
+                    all(isinstance(v, np.ndarray) for v in view)):
+                # Negative indices count from the end of each axis
+                view = [np.where(v < 0, v + n, v) for v, n in zip(view, self._data.shape)]
                 axis = self._data.ndim - 1 - self.axis
                 return pixel2world_single_axis(self._data.coords, *view[::-1],
                                                world_axis=axis)
